@@ -35,7 +35,15 @@ func symMarshal(i interface{}) ([]byte, error) {
 		return v, nil
 	case Node:
 		// v1marshaler: the user marshaler encodes the bare Node
-		b := []byte{'N', byte(len(v.Key))}
+		// like JSON, the encoding tells a nil slice from an empty one (null vs [])
+		flags := byte(0)
+		if v.Key == nil {
+			flags |= 1
+		}
+		if v.Value == nil {
+			flags |= 2
+		}
+		b := []byte{'N', flags, byte(len(v.Key))}
 		for _, k := range v.Key {
 			kb, err := symMarshal(k)
 			if err != nil {
@@ -64,10 +72,10 @@ func symMarshal(i interface{}) ([]byte, error) {
 
 // symParseNode parses the Node encoding above.
 func symParseNode(b []byte) (keys, vals [][]byte, links []string, ok bool) {
-	if len(b) < 2 || b[0] != 'N' {
+	if len(b) < 3 || b[0] != 'N' {
 		return
 	}
-	pos := 1
+	pos := 2 // b[1]: nil-ness flags of the Key/Value slices
 	nk := int(b[pos])
 	pos++
 	for i := 0; i < nk; i++ {
